@@ -10,7 +10,8 @@ except Exception: pass
 log=open(d+'/confirm.log').read() if os.path.exists(d+'/confirm.log') else ''
 m=re.search(r'^%s: (demo_without.*)$'%i,log,re.M)
 meta={
- 'property': i,
+ 'property': i[:3],
+ 'round': 2 if len(i)>3 else 1,
  'summary': a.get('summary',''),
  'needs_to_manifest': a.get('needs_to_manifest',''),
  'files_changed': a.get('files_changed',[]),
